@@ -62,9 +62,9 @@ Definition mon (m : mst) (o : op) (out : list obs) : mst * verdict :=
               let ca := default_dev pe (rc_cli c) in
               if eqb_faddr ca (rf_addr en rf) &&
                  role_type_ok (lf_role sf) (lf_type sf) RServer (lf_type sf) &&
-                 existsb (hit ca (srv_of sf)) (reg m)
+                 existsb (hit p ca (srv_of sf)) (reg m)
               then
-                (advance m o (filter (fun x => negb (hit ca (srv_of sf) x)) (reg m)),
+                (advance m o (filter (fun x => negb (hit p ca (srv_of sf) x)) (reg m)),
                  check (eqb_list eqb_res (results out) (expect_result p ctr ack false)) CL_DELETE ++
                  check (eqb_list eqb_obs_event (filter is_bind_event out) [ev_reg EvBind ChRemove p en (rf_addr en rf) sf]) CL_EVENT)
               else
